@@ -1109,9 +1109,13 @@ class BaseSQL(
 
     def extract_check_data(self, p, p_list):
         if isinstance(p_list[-1]["check"], list):
-            check = " ".join(p_list[-1]["check"])
-            if isinstance(check, str):
-                check = {"constraint_name": None, "statement": check}
+            items = p_list[-1]["check"]
+            if items and isinstance(items[0], dict) and "in_statement" in items[0]:
+                # CHECK (col IN (...)): same shape as under a named CONSTRAINT
+                statement = items[0]
+            else:
+                statement = " ".join(items)
+            check = {"constraint_name": None, "statement": statement}
         else:
             check = p_list[-1]["check"]
             p[0] = self.set_constraint(p[0], "checks", check, check["constraint_name"])
